@@ -113,6 +113,7 @@ type Machine struct {
 	syncMaps  map[*Value]*Map
 	digests   map[*Value]*[]*sym.Term
 	i53ok     map[int]bool
+	onceDone  map[*Value]bool
 	curInstr  ssa.Instruction
 	curFrame  *frame
 }
@@ -171,6 +172,7 @@ func (m *Machine) resetPath(prefix []Decision) {
 	m.syncMaps = map[*Value]*Map{}
 	m.digests = nil
 	m.i53ok = nil
+	m.onceDone = nil
 }
 
 func (m *Machine) freshName(prefix string) string {
